@@ -49,6 +49,11 @@ WANTED = {
     'lltdAutomata.c': ['derive_session_event'],
     'lltdBlock.c': ['mapper_matches', 'set_active_mapper'],
 }
+# sources OUTSIDE lltdResponder/ (path relative to the repository, extra include directories): the getters of the Linux port that answer
+# from the interface record.  In these functions `iface_ctx` IS the object read (a region), not an opaque context.
+EXTRA_SOURCES = {'os/linux/lltd_port.c': (['os/linux'], ['lltd_port_get_mtu', 'lltd_port_get_mac_address', 'lltd_port_get_characteristics_flags',
+                                                          'lltd_port_get_if_type', 'lltd_port_get_link_speed_100bps'])}
+EXTRA_HEADERS = [('os/linux', 'daemon/linux-main.h')]     # headers the layout probe includes in addition (records named in them are probed)
 # structs DEFINED IN A .c FILE whose layout the probe needs: the probe includes that file (with generated stubs for the port functions)
 PRIVATE_RECORDS = {'lltd_iface_state': 'lltdBlock.c'}
 # calls answered by the ENVIRONMENT instead of being translated here (tools/c2lean.py translates them with structs by value):
@@ -66,6 +71,7 @@ class Layout:
     def __init__(self, repo, records, flags, private=(), stubs=()):
         core = os.path.join(repo, 'lltdResponder')
         lines = ['#include <stdio.h>', '#include <stddef.h>', '#include <stdint.h>', '#include "lltdProtocol.h"', '#include "lltdAutomata.h"']
+        lines += ['#include "%s"' % h for _, h in EXTRA_HEADERS]
         lines += ['#include "%s"' % f for f in private] + list(stubs) + ['int main(void){']
         for name, fields in sorted(records.items()):
             lines.append('printf("S %s %%zu\\n", sizeof(%s));' % (name, name))
@@ -77,7 +83,8 @@ class Layout:
             src = os.path.join(d, 'p.c')
             open(src, 'w').write('\n'.join(lines))
             extra = [os.path.join(core, f) for f in ('lltdWire.c', 'lltdTlvOps.c', 'lltdAutomata.c')] if private else []
-            r = subprocess.run(['gcc', '-std=gnu11', '-w', '-D_GNU_SOURCE', '-I' + core, '-o', os.path.join(d, 'p'), src] + extra + flags,
+            incs = ['-I' + os.path.join(repo, i) for i, _ in EXTRA_HEADERS]
+            r = subprocess.run(['gcc', '-std=gnu11', '-w', '-D_GNU_SOURCE', '-I' + core] + incs + ['-o', os.path.join(d, 'p'), src] + extra + flags,
                                stdout=subprocess.PIPE, stderr=subprocess.PIPE, text=True)
             if r.returncode != 0:
                 raise Unsupported('layout probe does not compile:\n' + r.stderr[-1500:])
@@ -434,12 +441,12 @@ class Fn:
     def call(self, n):
         name = self.callee(n)
         args = n['inner'][1:]
-        if name == 'lltd_port_memcpy':
+        if name in ('lltd_port_memcpy', 'memcpy'):
             d, s = self.ptr(args[0]), self.ptr(args[1])
             cnt, kd = self.expr(args[2])
             self.pre.append(self.store_bytes(d.region, d.off, '(CSem.rd %s %s %s)' % (self.region_bytes(s.region), s.off, cnt)))
             return ('0', ('void',))
-        if name == 'lltd_port_memset':
+        if name in ('lltd_port_memset', 'memset'):
             d = self.ptr(args[0])
             v, kv = self.expr(args[1])
             cnt, kd = self.expr(args[2])
@@ -569,6 +576,28 @@ class Fn:
             lines.append('let s := if %s then (' % c)
             lines += ['  ' + l for l in a] + ['  s)', 'else (']
             lines += ['  ' + l for l in b] + ['  s)']
+            return
+        if k == 'CompoundAssignOperator':
+            op = n['opcode'][:-1]
+            lhs, rhs = n['inner']
+            reg, off, kd = self.place(lhs)
+            ck = C.kind_of(n['computeResultType'])
+            a, ka = self.load(reg, off, kd)
+            if ka != ck:
+                a, _ = self.conv(a, ka, ck, {})
+            b, kb = self.expr(rhs)
+            if kb != ck and op not in ('<<', '>>'):
+                self.fail('compound assignment operand of kind %r for %r' % (kb, ck))
+            class Dummy:
+                name = self.name
+            t = C.Fn.arith(Dummy, op, a, b, ck, kb)
+            if ck != kd:
+                t, _ = self.conv(t, ck, kd, {})
+            self.flush(lines)
+            if reg.startswith('var:') and off == '0':
+                lines.append('let s := { s with %s := %s }' % (lname(reg[4:]), t))
+            else:
+                lines.append('let s := %s' % self.store_bytes(reg, off, self.value_bytes(t, kd)))
             return
         if k == 'BreakStmt':
             if not self.in_loop:
@@ -820,7 +849,7 @@ class Fn:
                 self.fail('unnamed parameter')
             kd = C.kind_of(p['type'])
             if kd[0] == 'ptr':
-                if nm == 'iface_ctx' or nm == 'networkInterface':
+                if (nm == 'iface_ctx' or nm == 'networkInterface') and self.tr.defined_in.get(self.name) not in EXTRA_SOURCES:
                     continue
                 const = bool(re.search(r'\bconst\b', p['type'].get('qualType', '').split('*')[0]))
                 self.regions[nm] = ('param', None, const)
@@ -870,10 +899,11 @@ class Translator:
         self.defined_in = {}
         self.cache = {}
 
-    def load(self, src):
+    def load(self, src, incs=()):
         core = os.path.join(self.repo, 'lltdResponder')
-        cmd = ['clang-14', '-std=gnu11', '-D_GNU_SOURCE', '-I' + core, '-w', '-fsyntax-only', '-Xclang', '-ast-dump=json'] + self.flags + \
-              [os.path.join(core, src)]
+        path = os.path.join(self.repo, src) if '/' in src else os.path.join(core, src)
+        cmd = ['clang-14', '-std=gnu11', '-D_GNU_SOURCE', '-I' + core] + ['-I' + os.path.join(self.repo, i) for i in incs] + \
+              ['-w', '-fsyntax-only', '-Xclang', '-ast-dump=json'] + self.flags + [path]
         r = subprocess.run(cmd, stdout=subprocess.PIPE, stderr=subprocess.PIPE, text=True)
         if r.returncode != 0:
             raise Unsupported('clang cannot parse %s:\n' % src + r.stderr[-2000:])
@@ -912,6 +942,8 @@ class Translator:
                     nxt = val + 1
             elif kd == 'FunctionDecl':
                 if any(c.get('kind') == 'CompoundStmt' for c in n.get('inner', [])):
+                    if src in EXTRA_SOURCES and n['name'] not in EXTRA_SOURCES[src][1]:
+                        continue          # only the listed functions of a port file are of interest (the rest uses the OS)
                     self.fns[n['name']] = n
                     self.defined_in.setdefault(n['name'], src)
                 else:
@@ -940,9 +972,13 @@ class Translator:
         C.TYPEDEFS.clear()
         for src in SOURCES:
             self.load(src)
+        for src, (incs, _) in EXTRA_SOURCES.items():
+            self.load(src, incs)
         recs = {k: v for k, v in self.records.items() if re.match(r'^[A-Za-z_]\w*$', k) and k in C.TYPEDEFS or k in self.records}
         # only typedef'd records of lltdProtocol.h can be named in the probe
         hdr = open(os.path.join(self.repo, 'lltdResponder', 'lltdProtocol.h')).read() + open(os.path.join(self.repo, 'lltdResponder', 'lltdAutomata.h')).read()
+        for i, h in EXTRA_HEADERS:
+            hdr += open(os.path.join(self.repo, i, h)).read()
         named = {k: v for k, v in recs.items() if re.search(r'\}\s*(__attribute__\s*\(\(.*?\)\)\s*)?%s\s*;' % re.escape(k), hdr)}
         private = sorted(set(PRIVATE_RECORDS.values()))
         for k, f in PRIVATE_RECORDS.items():
@@ -950,7 +986,7 @@ class Translator:
                 named[k] = self.records[k]
         stubs = []
         for nm, proto in sorted(self.protos.items()):
-            if nm.startswith('lltd_port_') and nm not in self.fns:
+            if nm.startswith('lltd_port_') and (nm not in self.fns or self.defined_in.get(nm) in EXTRA_SOURCES):
                 tq = q(proto['type'])
                 ret = tq.split('(')[0].strip()
                 params = [p for p in proto.get('inner', []) if p.get('kind') == 'ParmVarDecl']
@@ -964,7 +1000,9 @@ class Translator:
             if self.field_kind[key] is not None:
                 self.field_kind[key] = C.kind_of(self.field_kind[key])
         wanted = []
-        for src in SOURCES:
+        for src, (_, names) in EXTRA_SOURCES.items():
+            WANTED[src] = names
+        for src in SOURCES + list(EXTRA_SOURCES):
             for nm in WANTED[src]:
                 if self.defined_in.get(nm) != src and nm not in self.fns:
                     raise Unsupported('function %s not found in %s' % (nm, src))
